@@ -155,7 +155,7 @@ func (s *Scenario) Validate() error {
 				}
 			}
 			switch o.Ctx {
-			case "", "cancel", "deadline", "parent", "cause":
+			case "", "cancel", "deadline", "parent", "cause", "farcancel":
 			default:
 				return fmt.Errorf("scenario: %s: bad ctx kind %q", where, o.Ctx)
 			}
